@@ -91,6 +91,7 @@ Inductive expr :=
 | EAndAlso (e1 e2 : expr)                       (* && *)
 | EOrElse (e1 e2 : expr)                        (* || *)
 | ECond (c e1 e2 : expr)
+| ECall0 (f : string)
 | ECall1 (f : string) (e1 : expr)
 | ECall2 (f : string) (e1 e2 : expr).
 
@@ -162,6 +163,12 @@ Fixpoint eval (d : nat) (st : state) (e : expr) {struct d} : option Z :=
        | EAndAlso e1 e2 => bind (ev e1) (fun a => if a =? 0 then Some 0 else bind (ev e2) (fun b => Some (b2z (negb (b =? 0)))))
        | EOrElse e1 e2 => bind (ev e1) (fun a => if a =? 0 then bind (ev e2) (fun b => Some (b2z (negb (b =? 0)))) else Some 1)
        | ECond c e1 e2 => bind (ev c) (fun cz => if cz =? 0 then ev e2 else ev e1)
+       | ECall0 f =>
+           match lookup f ft with
+           | Some {| fn_params := []; fn_body := b |} =>
+               eval d' {| locals := []; fields := []; arrays := [] |} b
+           | _ => None
+           end
        | ECall1 f e1 =>
            bind (ev e1) (fun a =>
            match lookup f ft with
